@@ -22,7 +22,8 @@ N_CASES = {"quick": 2500, "thorough": 120000}
 RULE = (
     "All eleven PyWrapper operations (get, getnext, multiget, set, multiset, walk, multiwalk, "
     "bulkwalk, bulkget, table, bulktable) against databases holding every SNMP value type and "
-    "tables with multi-component indexes, v1/v2c/v3 levels. Monitor: recursive exact-type walk "
+    "tables with multi-component indexes, v1/v2c/v3 levels, OID strings with and without a "
+    "leading dot. Monitor: recursive exact-type walk "
     "over the returned object (leaves in {str,int,bytes,timedelta,IPv4Address,NoneType}; "
     "containers list/tuple/PyVarBind/dict/OrderedDict, BulkResult for bulkget; dict KEYS "
     "checked too) and equality with the pythonisation of the raw Client's result for the same "
@@ -110,7 +111,9 @@ def norm_py(op, res):
 
 def do(op, w, args, py):
     c = w.py if py else w.client
-    conv = (lambda o: oid_s(o)) if py else OID
+    # the pythonic API takes dotted strings, with or without a leading dot
+    dot = "." if args.get("leading_dot") else ""
+    conv = (lambda o: dot + oid_s(o)) if py else OID
     if op == "get":
         return drive(c.get(conv(args["oid"])))
     if op == "getnext":
@@ -199,7 +202,7 @@ def run_case(R, level, op, db, args):
     problems, leaves = [], []
     typewalk(rp[1], "result", problems, leaves)
     kinds = tuple(sorted(set(leaves)))
-    R.case(("c15", op, level, kinds, len(leaves) > 3), bool(leaves), sample={**case, "result": repr(rp[1])[:300]} if R.evaluations % 499 == 0 else None)
+    R.case(("c15", op, level, kinds, len(leaves) > 3, bool(args.get("leading_dot"))), bool(leaves), sample={**case, "result": repr(rp[1])[:300]} if R.evaluations % 499 == 0 else None)
     R.mon["typewalk_leaves"] += len(leaves)
     if problems:
         mech = None
@@ -229,6 +232,7 @@ def run(R):
         if level == "v1" and op in ("bulkwalk", "bulkget", "bulktable"):
             level = "v2c"
         db, args = gen_case(rng, op)
+        args["leading_dot"] = rng.random() < 0.3
         if level == "v1":
             # v1 cannot carry Counter64
             db = {k: (v if v[0] != "c64" else ("c32", v[1] % 2**32)) for k, v in db.items()}
@@ -247,5 +251,5 @@ def replay(R, v):
             return bytes.fromhex(x[4:])
         return x
 
-    args = {k: fix(val) for k, val in c["args"].items()}
+    args = {k: (val if k == "leading_dot" else fix(val)) for k, val in c["args"].items()}
     run_case(R, c["level"], c["op"], dec_db(c["db"]), args)
